@@ -10,6 +10,12 @@
 (*                "name" | "array" | "null" | "other"; filters = <<>> with    *)
 (*                ff = "array" is /Filter [], a chain of zero filters,        *)
 (*    form    |-> "none"|"dict"|"array"|"other",                            *)
+(*    ind     |-> which entry is written as an indirect reference ("none" |  *)
+(*                "filter" | "filter-elem" | "parms" | "parms-elem" |         *)
+(*                "value"); filters / form / parms are the *resolved* ones,   *)
+(*    abs     |-> [filters, fform, form, parms] of the same dictionary with   *)
+(*                the entries written as references taken away (ghost, only   *)
+(*                to name the class of a deviation),                         *)
 (*    parms   |-> Seq(parameter record)   (the DecodeParms entry as written: *)
 (*                one record for a dictionary, one per element of an array), *)
 (*    length  |-> the Length entry (-1 = missing), content |-> Seq(Byte),    *)
@@ -24,7 +30,7 @@
 (***************************************************************************)
 EXTENDS Codecs
 
-Known == {Flate, Lzw, A85}
+Known == {Flate, Lzw, A85, AHx, RL}
 
 \* parameter record of stage i (ISO 32000-1 Table 5): a dictionary belongs to the only filter,
 \* an array is parallel to the filters; a missing / null entry means defaults
@@ -36,7 +42,7 @@ ParmFor(s, i) ==
 Chain(s) == [i \in 1..Len(s.filters) |-> Stage(s.filters[i], ParmFor(s, i))]
 
 LegalParms(p) ==
-    ~p.present \/ (p.pred \in {1} \cup 10..15 /\ p.colors >= 1 /\ p.bpc \in {8, 16} /\ p.columns >= 1 /\ p.early \in {0, 1})
+    ~p.present \/ (p.pred \in {1, 2} \cup 10..15 /\ p.colors >= 1 /\ p.bpc \in {1, 2, 4, 8, 16} /\ p.columns >= 1 /\ p.early \in {0, 1})
 
 \* the domain of the decode clause of C09
 InDomain(s) ==
@@ -71,19 +77,27 @@ CompressOK(pre, post) ==
 DecompressOK(pre, post) ==
     /\ LengthOK(post)
     /\ Decodable(pre) => View(post) = View(pre)
-    /\ (pre.filters # <<>> /\ Decodable(pre)) => (post.filters = <<>> /\ post.content = View(pre).data)
+    /\ (pre.filters # <<>> /\ Decodable(pre)) => ((post.filters = <<>> /\ post.content = View(pre).data)
+                                                    \/ (pre.ind # "none" /\ post = pre))         \* refused: nothing touched
 
 \* a logged decode result [ok, data] of the stream (decompressed_content / get_plain_content)
 \* (for a chain of zero filters decompressed_content has a result only in the spelling /Filter []; it is
 \*  the content: ISO 32000-1 Table 5 "an array of zero, one or several names")
+\* (an entry written as an indirect reference cannot be resolved by a method of Stream - there is no Document:
+\*  such a call may refuse; what it must not do is guess, i.e. answer Ok with other bytes)
 DecodeAgrees(s, r) ==
-    /\ (s.filters # <<>> /\ Decodable(s)) => (r.ok /\ r.data = View(s).data)
+    /\ (s.filters # <<>> /\ Decodable(s)) => IF s.ind = "none" THEN r.ok /\ r.data = View(s).data
+                                               ELSE r.ok => r.data = View(s).data
     /\ (s.filters = <<>> /\ s.ff = "array") => (r.ok /\ r.data = s.content)
 
 -----------------------------------------------------------------------------
 (* Impl-shaped layer *)
 
-Plain(s) == [s EXCEPT !.filters = <<>>, !.ff = "none", !.form = "none", !.parms = <<>>]
+NoAbs == [filters |-> <<>>, fform |-> "none", form |-> "none", parms |-> <<>>]
+SelfAbs(s) == [filters |-> s.filters, fform |-> s.ff, form |-> s.form, parms |-> s.parms]
+Plain(s) == [s EXCEPT !.filters = <<>>, !.ff = "none", !.form = "none", !.parms = <<>>, !.ind = "none", !.abs = NoAbs]
+\* the stream as it looks when the entries written as references are treated as absent
+AbsOf(s) == [s EXCEPT !.filters = s.abs.filters, !.ff = s.abs.fform, !.form = s.abs.form, !.parms = s.abs.parms, !.ind = "none"]
 
 ImplSetContent(s, b) == [s EXCEPT !.content = b, !.length = Len(b), !.orc = NoOracle]
 
@@ -95,16 +109,24 @@ ImplSetPlain(s, b) == [Plain(s) EXCEPT !.content = b, !.length = Len(b), !.orc =
 ImplCompress(s, c, devStale) ==
     IF s.ff = "none" /\ Len(c) + 19 < Len(s.content)          \* only when the dictionary has no Filter entry at all
     THEN LET t == IF devStale THEN s ELSE [s EXCEPT !.form = "none", !.parms = <<>>]
-         IN [t EXCEPT !.filters = <<Flate>>, !.ff = "name", !.content = c, !.length = Len(c), !.orc = [has |-> TRUE, data |-> s.content]]
+             u == [t EXCEPT !.filters = <<Flate>>, !.ff = "name", !.content = c, !.length = Len(c), !.orc = [has |-> TRUE, data |-> s.content]]
+         IN IF devStale THEN u ELSE [u EXCEPT !.ind = "none", !.abs = SelfAbs(u)]
     ELSE s
 
 ImplView(s, devAvg, devArr, devNul) == ImplDecodeO(s.content, Chain(s), s.form, s.orc, devAvg, devArr, devNul)
 
 \* devEmpty (open finding filter.empty-array): for /Filter [] the loop over the filters never runs and the
 \* *empty* output buffer becomes the content; repaired = the content is kept
-ImplDecompress(s, devAvg, devArr, devNul, devEmpty) ==
+\* devInd (open findings indirect.*): an entry written as a reference is treated as absent - the stream is decoded
+\* with default parameters and overwritten; repaired = the call is refused
+ImplDecompress(s, devAvg, devArr, devNul, devEmpty, devInd) ==
     LET d == ImplView(s, devAvg, devArr, devNul)
-    IN IF s.filters = <<>> /\ s.ff = "array"
+    IN IF s.ind # "none"
+       THEN (IF ~devInd \/ s.abs.filters = <<>> THEN s
+             ELSE LET a == AbsOf(s) da == ImplView(a, devAvg, devArr, devNul)
+                  IN IF (\A i \in 1..Len(a.filters) : a.filters[i] \in Known) /\ da.ok
+                     THEN [Plain(s) EXCEPT !.content = da.data, !.length = Len(da.data), !.orc = NoOracle] ELSE s)
+       ELSE IF s.filters = <<>> /\ s.ff = "array"
        THEN LET c == IF devEmpty THEN <<>> ELSE s.content
             IN [Plain(s) EXCEPT !.content = c, !.length = Len(c), !.orc = NoOracle]
        ELSE IF s.filters # <<>> /\ (\A i \in 1..Len(s.filters) : s.filters[i] \in Known) /\ d.ok
@@ -114,7 +136,8 @@ ImplDecompress(s, devAvg, devArr, devNul, devEmpty) ==
 \* the same with the thread's scratch state (Codecs, "Thread history"); returns [s, rows]
 ImplViewT(s, rows, devRows) == ImplDecodeT(s.content, Chain(s), s.form, s.orc, rows, devRows)
 ImplDecompressT(s, rows, devRows) ==
-    IF s.filters = <<>>
+    IF s.ind # "none" THEN [s |-> s, rows |-> rows]          \* refused before anything is decoded
+    ELSE IF s.filters = <<>>
     THEN [s |-> IF s.ff = "array" THEN [Plain(s) EXCEPT !.length = Len(s.content), !.orc = NoOracle] ELSE s, rows |-> rows]
     ELSE LET d == ImplViewT(s, rows, devRows)
          IN [s |-> IF (\A i \in 1..Len(s.filters) : s.filters[i] \in Known) /\ d.ok
@@ -123,8 +146,8 @@ ImplDecompressT(s, rows, devRows) ==
 
 \* Document::compress honours allows_compression, Stream::compress does not
 ImplDocCompress(ss, cs, devStale) == [i \in 1..Len(ss) |-> IF ss[i].allows THEN ImplCompress(ss[i], cs[i], devStale) ELSE ss[i]]
-ImplDocDecompress(ss, devAvg, devArr, devNul, devEmpty) ==
-    [i \in 1..Len(ss) |-> ImplDecompress(ss[i], devAvg, devArr, devNul, devEmpty)]
+ImplDocDecompress(ss, devAvg, devArr, devNul, devEmpty, devInd) ==
+    [i \in 1..Len(ss) |-> ImplDecompress(ss[i], devAvg, devArr, devNul, devEmpty, devInd)]
 
 -----------------------------------------------------------------------------
 (* Classes of input on which the code deviated before the fix: commits (narrow signatures of  *)
@@ -152,9 +175,12 @@ KnownClasses(s, op) ==
              /\ PredictorInput(s).ok /\ HasAvgRow(PredictorInput(s).data, RowLen(ParmFor(s, 1)))
           THEN {"png.avg"} ELSE {})
     \cup (IF s.filters = <<>> /\ s.ff = "array" /\ s.content # <<>> THEN {"filter.empty-array"} ELSE {})
+    \cup (IF s.ind # "none" THEN {"indirect." \o s.ind} ELSE {})
 
 \* the switches that reproduce class k in the impl-shaped layer
-ImplViewFor(s, k) == IF k = "filter.empty-array" THEN Good(<<>>) ELSE ImplView(s, k = "png.avg", k = "decodeparms.array", FALSE)
+IndirectClasses == {"indirect.filter", "indirect.filter-elem", "indirect.parms", "indirect.parms-elem", "indirect.value"}
+ImplViewFor(s, k) == IF k = "filter.empty-array" THEN Good(<<>>)
+                     ELSE IF k \in IndirectClasses THEN View(AbsOf(s)) ELSE ImplView(s, k = "png.avg", k = "decodeparms.array", FALSE)
 
 -----------------------------------------------------------------------------
 (* Summarised contents.  Losslessness and decode correctness must not depend on the size or   *)
